@@ -216,10 +216,16 @@ def run(chk):
     chk.notes['random_trace_events'] = sum(len(t) - 1 for t in traces)
     chk.exhaustive = False
     chk.assumptions.append('generalConfig.testinit(omit_unchanged_within=0); modules are not started (no poll threads)')
+    # requests of several connections are served one at a time (shared with C04 / C07): DispLock / DispSerial
+    from . import disp_serial
+    disp_serial.add(chk)
 
 
 def replay(chk, rep):
     d = rep['detail']
+    if 'serial' in d:
+        from . import disp_serial
+        return disp_serial.replay(chk, rep)
     if 'behaviour' in d:
         r = run_tlc('Gen_Dispatch', 'Gen_Dispatch_%s.cfg' % rep.get('tier', 'quick'), workers=1, timeout=1000)
         for s in r.printed('SHAPE'):
